@@ -387,7 +387,15 @@ func (s *Solver) SolveAll(sp *Specs, obls []*Obligation, workers int) {
 	for _, o := range obls {
 		if o.Result == nil {
 			o := o
-			jobs = append(jobs, func() { o.Result = s.solveWith(sp, o, first, nil) })
+			jobs = append(jobs, func() {
+				if o.Kind == "invariant-preserved" && !s.All {
+					if r := s.solveSplit(sp, o, []int{0}); r != nil {
+						o.Result = r
+						return
+					}
+				}
+				o.Result = s.solveWith(sp, o, first, nil)
+			})
 		}
 	}
 	par(jobs)
@@ -467,4 +475,131 @@ func (s *Solver) SolveAll(sp *Specs, obls []*Obligation, workers int) {
 	par(jobs)
 	workers = w
 	s.Timeout = saved
+}
+
+// rangeSplit: a goal of the form  forall j. (... and j < T+1 and ...) => B  is equivalent to the conjunction of
+//   forall j. (... and j < T and ...) => B      (the part the induction hypothesis covers)   and
+//   (...)[j:=T] => B[j:=T]                       (the new element).
+// The back ends decide the two halves of a preserved range invariant in a fraction of a second where the
+// combined goal can run into the time limit (the case split has to be found under a large path condition).
+// Discharging both halves discharges the goal; anything else falls back to the unsplit goal.
+func rangeSplit(goal Term) (Term, Term, bool) {
+	if goal.Sort != SBool || !strings.HasPrefix(goal.S, "(forall ((") {
+		return goal, goal, false
+	}
+	e, _ := parseSExp(goal.S, 0)
+	if e == nil || len(e.List) != 3 || e.List[0].Atom != "forall" || len(e.List[1].List) != 1 {
+		return goal, goal, false
+	}
+	bind := e.List[1].List[0]
+	if len(bind.List) != 2 || bind.List[1].Atom != "Int" {
+		return goal, goal, false
+	}
+	v := bind.List[0].Atom
+	imp := e.List[2]
+	if len(imp.List) != 3 || imp.List[0].Atom != "=>" {
+		return goal, goal, false
+	}
+	var conj []*SExp
+	var flat func(x *SExp)
+	flat = func(x *SExp) {
+		if len(x.List) > 0 && x.List[0].Atom == "and" {
+			for _, c := range x.List[1:] {
+				flat(c)
+			}
+			return
+		}
+		conj = append(conj, x)
+	}
+	flat(imp.List[1])
+	at := -1
+	var upper *SExp
+	for i, c := range conj {
+		// (< v (+ T 1))
+		if len(c.List) == 3 && c.List[0].Atom == "<" && c.List[1].Atom == v {
+			u := c.List[2]
+			if len(u.List) == 3 && u.List[0].Atom == "+" && u.List[2].Atom == "1" && !mentions(u.List[1], v) {
+				at, upper = i, u.List[1]
+				break
+			}
+		}
+	}
+	if at < 0 {
+		return goal, goal, false
+	}
+	mk := func(cs []*SExp) string {
+		if len(cs) == 0 {
+			return "true"
+		}
+		if len(cs) == 1 {
+			return cs[0].String()
+		}
+		var b strings.Builder
+		b.WriteString("(and")
+		for _, c := range cs {
+			b.WriteByte(' ')
+			b.WriteString(c.String())
+		}
+		b.WriteByte(')')
+		return b.String()
+	}
+	// first half: j < T
+	ca := append([]*SExp(nil), conj...)
+	ca[at] = &SExp{List: []*SExp{{Atom: "<"}, {Atom: v}, upper}}
+	a := fmt.Sprintf("(forall ((%s Int)) (=> %s %s))", v, mk(ca), imp.List[2].String())
+	// second half: j := T
+	var cb []*SExp
+	for i, c := range conj {
+		if i != at {
+			cb = append(cb, substAtom(c, v, upper))
+		}
+	}
+	b := fmt.Sprintf("(=> %s %s)", mk(cb), substAtom(imp.List[2], v, upper).String())
+	return Term{a, SBool}, Term{b, SBool}, true
+}
+
+func mentions(e *SExp, v string) bool {
+	if e.List == nil {
+		return e.Atom == v
+	}
+	for _, c := range e.List {
+		if mentions(c, v) {
+			return true
+		}
+	}
+	return false
+}
+
+func substAtom(e *SExp, v string, by *SExp) *SExp {
+	if e.List == nil {
+		if e.Atom == v {
+			return by
+		}
+		return e
+	}
+	n := &SExp{List: make([]*SExp, len(e.List))}
+	for i, c := range e.List {
+		n.List[i] = substAtom(c, v, by)
+	}
+	return n
+}
+
+// solveSplit tries the two halves of a range-quantified goal; it reports success only if both are discharged.
+func (s *Solver) solveSplit(sp *Specs, o *Obligation, which []int) *SolveResult {
+	a, b, ok := rangeSplit(o.Goal)
+	if !ok {
+		return nil
+	}
+	oa, ob := *o, *o
+	oa.Goal, ob.Goal = a, b
+	oa.Kind, ob.Kind = o.Kind+"/old-range", o.Kind+"/new-element"
+	ra := s.solveWith(sp, &oa, which, nil)
+	if ra.Status != "unsat" {
+		return nil
+	}
+	rb := s.solveWith(sp, &ob, which, nil)
+	if rb.Status != "unsat" {
+		return nil
+	}
+	return &SolveResult{Status: "unsat", Backend: ra.Backend + " (range split)", Secs: ra.Secs + rb.Secs, Size: ra.Size + rb.Size, Tried: append(ra.Tried, rb.Tried...)}
 }
